@@ -331,13 +331,15 @@ func (self *BinaryConv) unmarshalMap(ctx context.Context, resp http.ResponseSett
 	mapKeyDesc := fd.Key()
 	// every non-string key kind (all integer kinds and bool) is written as a bare scalar and must be quoted
 	isIntKey := mapKeyDesc.Type().IsInt() || mapKeyDesc.Type() == proto.BOOL
-	if isIntKey {
+	// under Int642String an int64 scalar is written with its own quotes already
+	quoteKey := isIntKey && !(self.opts.Int642String && mapKeyDesc.Type() == proto.INT64)
+	if quoteKey {
 		*out = append(*out, '"')
 	}
 	if self.unmarshalSingular(ctx, resp, p, out, mapKeyDesc) != nil {
 		return wrapError(meta.ErrRead, "parse MapKey Value error", err)
 	}
-	if isIntKey {
+	if quoteKey {
 		*out = append(*out, '"')
 	}
 	*out = json.EncodeObjectColon(*out)
@@ -372,13 +374,13 @@ func (self *BinaryConv) unmarshalMap(ctx context.Context, resp http.ResponseSett
 		if keyErr != nil {
 			return wrapError(meta.ErrRead, "parse MapKey Tag error", err)
 		}
-		if isIntKey {
+		if quoteKey {
 			*out = append(*out, '"')
 		}
 		if self.unmarshalSingular(ctx, resp, p, out, mapKeyDesc) != nil {
 			return wrapError(meta.ErrRead, "parse MapKey Value error", err)
 		}
-		if isIntKey {
+		if quoteKey {
 			*out = append(*out, '"')
 		}
 		*out = json.EncodeObjectColon(*out)
